@@ -8,7 +8,8 @@ LEVEL = "exploration"
 P = "C03"
 RULE = ("full product of a Unicode mnemonic alphabet (ASCII 12/24 words, composed/decomposed twins, Japanese with dakuten and U+3000 "
         "separators, Hangul syllables vs jamo, ligatures, full-width forms, U+212B/U+00C5, astral-plane characters, empty string) x "
-        "a passphrase alphabet of the same shapes x {mainnet,testnet}; ALL seed lengths 0..80 x 3 byte patterns through master_key and "
+        "a passphrase alphabet of the same shapes x {mainnet,testnet}; EVERY code point that NFKD changes (5,857 outside the Hangul syllable "
+        "block; thorough: all 17,029) inside mnemonic and passphrase; ALL seed lengths 0..80 x 3 byte patterns through master_key and "
         "the seed constructors; constructor equivalence for 5 entropy sizes x 4 patterns x passphrases through from_entropy_hex, "
         "from_mnemonic, from_bip39_seed_bytes/_hex, from_extended_key(xprv/tprv) and new_wallet (re-created from its own mnemonic). "
         "Oracle: own PBKDF2-HMAC-SHA512 loop (2048, 64) with salt 'mnemonic'+NFKD(passphrase); HMAC 'Bitcoin seed'; twin pairs must "
@@ -195,8 +196,33 @@ def chk_new(length, pi, testnet):
     return []
 
 
+def chk_codepoints(lo, hi, hangul):
+    """every code point in [lo, hi) that NFKD changes, once inside the mnemonic and once inside the passphrase"""
+    from btc_hd_wallet import bip39
+    viols, n = [], 0
+    for cp in range(lo, hi):
+        if 0xD800 <= cp <= 0xDFFF or (0xAC00 <= cp <= 0xD7A3) != hangul:
+            continue
+        ch = chr(cp)
+        if unicodedata.normalize("NFKD", ch) == ch:
+            continue
+        n += 1
+        m, p = "zoo " + ch + " wrong", "pw" + ch
+        st, seed = attempt(bip39.bip39_seed_from_mnemonic, m, p)
+        exp = hd.seed_from_mnemonic(m, p)
+        if st != "ok" or seed != exp:
+            viols.append(V(P + ":bip39_seed_from_mnemonic:code-point:wrong-seed", "seed for text containing U+%04X" % cp,
+                           seed.hex()[:32] if st == "ok" else seed, exp.hex()[:32], case={"k": "cps", "lo": cp, "hi": cp + 1, "hangul": hangul}))
+            if len(viols) > 20:
+                break
+    return n, viols
+
+
 def execute(case):
     k = case["k"]
+    if k == "cps":
+        n, vs = chk_codepoints(case["lo"], case["hi"], case["hangul"])
+        return R("violation" if vs else "code-points-ok", viols=vs, n=max(n, 1), nt=n)
     if k == "text":
         vs = chk_text(case["m"], case["p"])
         return R("violation" if vs else "seed-and-master-ok", viols=vs)
@@ -225,6 +251,11 @@ def run(ctx):
     ps = range(len(P_ALPHA))
     ctx.product("mnemonic-x-passphrase", [{"k": "text", "m": m, "p": p} for m in ms for p in ps], execute)
     ctx.product("normalisation-twins", [{"k": "twins"}], execute, parallel=False)
+    # EVERY code point that NFKD changes (5,857 outside the Hangul syllable block; thorough adds the 11,172 syllables)
+    blocks = [{"k": "cps", "lo": lo, "hi": lo + 0x400, "hangul": False} for lo in range(0, 0x110000, 0x400)]
+    if ctx.thorough:
+        blocks += [{"k": "cps", "lo": lo, "hi": lo + 0x200, "hangul": True} for lo in range(0xAC00, 0xD800, 0x200)]
+    ctx.product("every-decomposable-code-point", blocks, execute, chunk=4)
     ctx.product("seed-lengths", [{"k": "seed", "L": L, "pat": pat} for L in range(0, 81) for pat in ("00", "ff", "inc")] +
                 [{"k": "seed", "L": 64, "pat": "lzmaster"}], execute)
     ents = []
